@@ -19,8 +19,8 @@ def oracle_dd(run):
     (3) no destructor / callback event of a thread between its acquisition and release of destructionLock;
     (4) callback installed: at most one callback per object unless the callback re-added it; an object destroyed by a
         destroyObjects call that did not throw had its callback before;
-    (5) sizes: size() returns the vector length at its critical section; destroyObjects returns -1 exactly when the call never
-        obtained the lock, otherwise a length the vector had at one of the call's own critical sections."""
+    (5) sizes: size() returns the vector length at its critical section; destroyObjects returns -1 only when one of the call's
+        acquisition attempts failed, otherwise a length the vector had at one of the call's own critical sections."""
     evs = list(events(run))
     if not evs or evs[0][1][0] != "cfg":
         return None
@@ -136,6 +136,8 @@ def oracle_dd(run):
                 st[-1]["first"] = ok
             if ok:
                 st[-1]["got"] = True
+            else:
+                st[-1]["failed"] = True
             if ok and st[-1]["op"] in ("add", "addm"):
                 L += 1
         elif k == "mul":
@@ -154,10 +156,10 @@ def oracle_dd(run):
                 return "size() returned %s, vector length at its critical section was %s" % (t[2], f["lens"][-1:])
             if t[1] in ("destroy", "destroyd"):
                 n = int(t[2])
-                # size_t(-1) means "gave up without ever getting the lock" - stated on whether the call obtained the lock at
-                # all, not on which of its attempts failed
-                if (n == -1) != (not f.get("got")):
-                    return "%s returned %d although the call %s" % (t[1], n, "obtained the lock" if f.get("got") else "never obtained the lock")
+                # size_t(-1) means "gave up waiting for the lock": it needs an acquisition attempt of this call that failed, and
+                # a call whose every attempt succeeded never returns it (which attempt failed is the implementation's business)
+                if n == -1 and not f.get("failed") and not single:
+                    return "%s returned -1 although none of its acquisition attempts failed" % t[1]
                 if n != -1 and n not in f["lens"]:
                     return "%s returned %d, vector lengths at its critical sections were %s" % (t[1], n, f["lens"])
     return None
